@@ -66,6 +66,30 @@ func (h *harness) hsCheckDone(fs fullSpec, d *memory.Database, rp migPlanReplay)
 
 func (h *harness) headstateFamily() {
 	h.writeFailHangs = 0
+	// databases the migration must refuse: a contract whose deployment height (or class hash
+	// under a stray nonce) is missing must not be given an invented value
+	for _, victim := range []int{0, 3, 6} {
+		fs := fullSpec{Chain: chainSpec{Seed: 77, NoHeight: true}, Contracts: 7}
+		d0, err := fs.build()
+		if err != nil {
+			continue
+		}
+		addrs := sortedContractAddrs(fs.Chain.Seed, fs.Contracts)
+		_ = core.DeleteContractDeploymentHeight(d0, addrs[victim])
+		rp := migPlanReplay{Migration: "headstate", Spec: fs, What: fmt.Sprintf("delete the deployment height of contract #%d (key order), run Migrate", victim)}
+		o := runMigrator(headstate.Migrator{}, nil, d0, btPlan{}, false, 6*time.Second, true)
+		h.res.Case(fmt.Sprintf("hs-corrupt|%d", victim), true)
+		h.res.Hit("hs-corrupt:" + o.ret)
+		if o.ret == "hang" || o.ret == "panic" {
+			continue
+		}
+		post := hsAbstract(o.final, fs.Chain.Seed, fs.Contracts)
+		h.hsTransition(hsObs{hsAbstract(d0, fs.Chain.Seed, fs.Contracts), post, hsRetOf(o)}, map[string]any{"replay": rp})
+		if f := strings.Split(post[victim], ":"); f[3] != "x" || o.ret == "done" {
+			h.res.Violate(lib.Violation{Sig: "headstate-invents-missing-field",
+				What: fmt.Sprintf("contract #%d has no deployment height; Migrate returned %s and the account is now %s", victim, o.ret, post[victim]), Replay: rp})
+		}
+	}
 	for _, n := range []int{0, 1, 7, 30} {
 		fs := fullSpec{Chain: chainSpec{Seed: 21 + uint64(n), NoHeight: true}, Contracts: n}
 		d0, err := fs.build()
